@@ -298,6 +298,13 @@ func runC17(c *Ctx) {
 				}
 			})
 			c.Decide("C17.R4", recount, "recount reads the headers from the buffer", nil, readsHdr, "the recount routine does not read the headers from the underlying buffer")
+			// the recount is an exhaustive scan: its loops are left only through their own condition (or with an error)
+			for _, ex := range loopEarlyExits(recount) {
+				c.Decide("C17.R4", recount, "recount scans every header byte (no early loop exit)", ex, false, "the recount leaves a loop over the header bytes/segments early: bytes behind that point are assumed instead of counted, so after a reopen the free counter (and with it ErrExhausted) disagrees with the bitmap")
+			}
+			if len(loopEarlyExits(recount)) == 0 {
+				c.Decide("C17.R4", recount, "recount scans every header byte (no early loop exit)", nil, hasLoop(recount), "the recount routine has no loop over the headers")
+			}
 			// other accesses are atomic
 			for _, fn := range pkgFns {
 				if fn == recount {
@@ -479,4 +486,62 @@ func (c *Ctx) fieldComparedIn(fn *ssa.Function, t *types.Named) *types.Var {
 	}
 	c.Role("blocks.segments", res[0].Name(), res[0].Pos())
 	return res[0]
+}
+
+// loopEarlyExits returns the terminators of blocks that leave a natural loop of fn from somewhere else than the
+// loop header, unless the exit leads straight to a failure return.
+func loopEarlyExits(fn *ssa.Function) []ssa.Instruction {
+	var res []ssa.Instruction
+	seen := map[*ssa.BasicBlock]bool{}
+	// natural loops, merged per header
+	loops := map[*ssa.BasicBlock]map[*ssa.BasicBlock]bool{}
+	for _, b := range fn.Blocks {
+		for _, h := range b.Succs {
+			if !h.Dominates(b) {
+				continue
+			}
+			body := loops[h]
+			if body == nil {
+				body = map[*ssa.BasicBlock]bool{h: true}
+				loops[h] = body
+			}
+			stack := []*ssa.BasicBlock{b}
+			for len(stack) > 0 {
+				x := stack[len(stack)-1]
+				stack = stack[:len(stack)-1]
+				if body[x] {
+					continue
+				}
+				body[x] = true
+				stack = append(stack, x.Preds...)
+			}
+		}
+	}
+	for _, b := range fn.Blocks { // deterministic order
+		body := loops[b]
+		if body == nil {
+			continue
+		}
+		h := b
+		for _, x := range fn.Blocks {
+			if !body[x] || x == h {
+				continue
+			}
+			for _, y := range x.Succs {
+				if body[y] || seen[x] {
+					continue
+				}
+				// an exit that is a failure return is fine
+				if ret, ok := y.Instrs[len(y.Instrs)-1].(*ssa.Return); ok {
+					idx := ir.ErrResultIndex(fn)
+					if idx >= 0 && ir.ClassifyErr(ir.ResultValue(ret, idx), y) == ir.ErrNonNil {
+						continue
+					}
+				}
+				seen[x] = true
+				res = append(res, x.Instrs[len(x.Instrs)-1])
+			}
+		}
+	}
+	return res
 }
